@@ -250,7 +250,7 @@ func rawJSON(k *keyid.KeyID) string {
 	return string(b)
 }
 
-var retypes = []string{`null`, `"x"`, `"1"`, `"true"`, `0`, `1`, `-1`, `1.5`, `1e3`, `true`, `false`, `[]`, `[1]`, `["a"]`, `{}`, `{"a":1}`, `65536`, `99999999999999999999`}
+var retypes = []string{`null`, `"x"`, `"1"`, `"true"`, `0`, `1`, `-1`, `1.5`, `1e3`, `true`, `false`, `[]`, `[1]`, `["a"]`, `{}`, `{"a":1}`, `65536`, `65537`, `131073`, `-65535`, `4294967297`, `99999999999999999999`}
 
 func main() {
 	ev.MainIsolated("C05", "exploration", 40*time.Minute, func(r *ev.Run) {
